@@ -33,6 +33,19 @@ check("C19", "model_checking",
       "state-based (remove deletes only the named path). Trusted: the 20-line set model.",
       "explicit-state BFS on the implementation vs reference model", "DESIGN.md §2 C19")
 
+check("C15", "model_checking",
+      "Part A: explicit-state BFS on the real Loader for 10 bundle-backed result families (GIR, scope hierarchy, CFG, "
+      "bit vectors, stmt status, symbol/state space, symbol graph, defined/used symbols, parameter mapping, decl ids): "
+      "all histories over save(i,A|B)/get(i)/export+indexing/restore-into-fresh-loader to depth 4 (thorough 5), x item-cache "
+      "x bundle-cache capacity x MAX_ROWS (1 forces one bundle per save), then every get and an export+restore+get-all "
+      "probe in every reached state; A/B are real objects harvested from a real analysis; real feather files in a scratch "
+      "workspace. Part B: recorded real histories - 3 programs x p2 on/off x capacity/row-limit configurations with every "
+      "Loader.save_* recorded; for every saved item of every family (55 save APIs) live read == read from a fresh loader "
+      "restored from the exported files, unless the failed write was reported.",
+      "Expected read-back form = save;get on a fresh loader (differential). Empty == absent; set/list, Row/dict/record "
+      "object, range/list are equal content. Restore-path defects already confirmed are listed in known_findings.json.",
+      "explicit-state BFS on the implementation vs reference model + replay of recorded real histories", "DESIGN.md §2 C15")
+
 check("C16", "model_checking",
       "Explicit-state BFS over the real DataModel: all histories of mutations (modify_element/row/column, append, "
       "remove_rows, rename_column, slice, reset_index, clone, DataModel(other)) and queries (which build the row "
